@@ -12,17 +12,32 @@ pub struct Phase {
     pub seeded: bool,
 }
 
-pub const CLAIMED: [&str; 6] = ["C01", "C02", "C04", "C05", "C06", "C18"];
+pub const CLAIMED: [&str; 10] = ["C01", "C02", "C04", "C05", "C06", "C09", "C10", "C11", "C12", "C18"];
 
 const RT_BATCH: u64 = 64;
 
 pub fn phases(prop: &str, tier: Tier) -> Vec<Phase> {
     let q = tier == Tier::Quick;
     match prop {
-        "C01" | "C02" | "C04" | "C05" | "C06" | "C18" => vec![
+        "C01" | "C02" | "C04" | "C06" | "C18" => vec![
             Phase { name: "rt-grid", units: 13, seeded: false },
             Phase { name: "rt-seeded", units: if q { 400 } else { 40_000 }, seeded: true },
         ],
+        "C05" => vec![
+            Phase { name: "rt-grid", units: 13, seeded: false },
+            Phase { name: "rt-seeded", units: if q { 300 } else { 30_000 }, seeded: true },
+            Phase { name: "hw-seeded", units: if q { 200 } else { 20_000 }, seeded: true },
+        ],
+        "C09" => vec![
+            Phase { name: if q { "c09-sweep4" } else { "c09-sweep6" }, units: 78, seeded: false },
+            Phase { name: "hw-seeded", units: if q { 300 } else { 30_000 }, seeded: true },
+        ],
+        "C10" => vec![
+            Phase { name: if q { "c10-sweep3" } else { "c10-sweep5" }, units: 13, seeded: false },
+            Phase { name: "hw-seeded", units: if q { 300 } else { 30_000 }, seeded: true },
+        ],
+        "C11" => vec![Phase { name: if q { "crash-sampled" } else { "crash-full" }, units: if q { 160 } else { 4000 }, seeded: true }],
+        "C12" => vec![Phase { name: "wfault", units: if q { 320 } else { 16_000 }, seeded: true }],
         _ => vec![],
     }
 }
@@ -46,6 +61,29 @@ pub fn run_unit(prop: &str, phase: &str, unit: u64, seed: u64, _tier: Tier, ctx:
             }
         }
         "rt-grid" => crate::fam_rt::grid_unit(unit, ctx, ctl),
+        "hw-seeded" => {
+            for j in 0..RT_BATCH {
+                let run = unit * RT_BATCH + j;
+                let mut r = Rng::new(derive(seed, &format!("{}/hw", prop), run));
+                let scn = crate::fam_histw::generate(&mut r, prop);
+                if !ctl.before_case(|| Scenario::HistW(scn.clone())) {
+                    continue;
+                }
+                ctx.stats.evaluations += 1;
+                crate::fam_histw::execute(&scn, ctx);
+                if ctx.stats.samples.len() < 2 && j == 0 {
+                    ctx.stats.samples.push(serde_json::to_value(Scenario::HistW(scn.clone())).unwrap());
+                }
+                ctl.after_case(ctx, || Scenario::HistW(scn.clone()));
+            }
+        }
+        "c09-sweep4" => crate::fam_histw::c09_sweep_unit(unit, 4, ctx, ctl),
+        "c09-sweep6" => crate::fam_histw::c09_sweep_unit(unit, 6, ctx, ctl),
+        "c10-sweep3" => crate::fam_histw::c10_sweep_unit(unit, 3, ctx, ctl),
+        "c10-sweep5" => crate::fam_histw::c10_sweep_unit(unit, 5, ctx, ctl),
+        "crash-sampled" => crate::fam_crash::unit(derive(seed, "C11/crash", unit), 20_000, ctx, ctl),
+        "crash-full" => crate::fam_crash::unit(derive(seed, "C11/crash", unit), usize::MAX, ctx, ctl),
+        "wfault" => crate::fam_wfault::unit(derive(seed, "C12/wfault", unit), ctx, ctl),
         _ => {}
     }
 }
@@ -63,6 +101,30 @@ pub fn meta(prop: &str) -> PropMeta {
             level: "exploration",
             rule: "rt-grid: 13 types x parts 1..=6 x points/part 1..=8 x {Direct, BufWriter} x {with,without shx}, enumerated; rt-seeded: one seeded scenario per run (type, 0..40 shapes via public constructors, swarm-drawn float classes, finalize placement, ending, stacks, chunk/EINTR schedules). A run counts as non-trivial if it wrote at least one shape; distinct = distinct (type, per-shape part-length signature, writer stack, call pattern, reader stack) tuples by hash.",
             explanation: "Fault-free configuration of the simulator with must-be-masked transfer schedules: the real writer runs against simulated devices, the bytes are judged by an independent decoder and read back through every reading route of the real reader. Simulated time = device operations (logical_steps); the code under test has no clock.",
+            exhaustive: false,
+        },
+        "C09" => PropMeta {
+            level: "exploration",
+            rule: "c09-sweep: all sequences over {write a, write b, finalize} up to length 4 (quick) / 6 (thorough) x ending {drop, finalize+drop, write_shapes} x 13 types x {with,without index} x {Direct, BufWriter(5), BufWriter(8192)}, enumerated completely; hw-seeded: longer seeded histories with varying shapes, rejected writes and masked transfer schedules. distinct = distinct (type, call pattern, index, stack) tuples; all are non-trivial (each executes at least the ending).",
+            explanation: "Each history runs on simulated devices with every call bracketed by the device events it caused; final bytes are compared with those of 'same shapes, drop' executed in the same process; after every successful finalize the device content below any buffer must be a complete shapefile (independent decoder); an idle finalize must have an empty event range.",
+            exhaustive: true,
+        },
+        "C10" => PropMeta {
+            level: "exploration",
+            rule: "c10-sweep: all 13x12 ordered (file type, offered type) pairs x all histories over {write a, write b, finalize} that start with a write, up to length 3 (quick) / 5 (thorough) x every position of the rejected call, enumerated completely; hw-seeded: seeded longer histories. distinct = distinct (type, call pattern, index, stack) tuples.",
+            explanation: "The rejected call must return MismatchShapeType{file type, offered type}, have an empty device-event range, and the final files must equal those of the history with the rejected calls deleted.",
+            exhaustive: true,
+        },
+        "C11" => PropMeta {
+            level: "fault_enumeration",
+            rule: "one unit = one seeded workload (type, 1..5 tagged shapes, 0..3 finalize calls anywhere, Direct or BufWriter stack, with index) run once; then every .shp cut point (every event boundary and every byte inside every write) is read without index, and every (shp cut, shx cut) pair - all of them in the thorough tier, an evenly strided sample of at most 20000 per workload in the quick tier - is read with index (sequential + random access at every entry). evaluations = crash states judged; distinct = distinct (workload, shp image hash, shx image hash) triples actually read; duplicates are skipped and counted in reach.",
+            explanation: "Crash states are reconstructed from the recorded event log, not by re-running the writer. Oracle: Ok items before the first Err are a prefix of the shapes written; random access returns shape i or an error; shapes written before a finalize whose Flush on the .shp is inside the prefix are all readable without index.",
+            exhaustive: false,
+        },
+        "C12" => PropMeta {
+            level: "fault_enumeration",
+            rule: "one unit = one seeded workload (write_shape / finalize-with-immediate-retry / drop; Direct or BufWriter stack); golden run, then for every operation k issued on each destination: one-shot error, persistent error, Ok(0), EINTR at k; disk-full at ~150 capacities per destination; every short-write chunk size from 1 byte upward with and without EINTR; 6 seeded mixed schedules. distinct = distinct (history, fault class, per-call result pattern) triples; runs whose fault never fired are not counted as distinct.",
+            explanation: "Surfacing is judged with the API-call brackets: the call whose device-event range contains the failed operation must return Err (exact also below a BufWriter). A one-shot fault in a finalize must leave golden bytes after the immediate retry. Masked schedules must leave golden bytes.",
             exhaustive: false,
         },
         _ => PropMeta { level: "exploration", rule: "", explanation: "", exhaustive: false },
